@@ -141,7 +141,8 @@ func (m *ErrorMessage) UnmarshalBinary(data []byte) error {
 		return fmt.Errorf("failed to decode compact length")
 	}
 
-	if len(data) < bytesRead+int(length) {
+	// compare in uint64: int(length) may overflow for a hostile length
+	if length > uint64(len(data)-bytesRead) {
 		return fmt.Errorf("data too short for error message")
 	}
 
@@ -269,6 +270,11 @@ func (m *PeerInfo) UnmarshalBinary(data []byte) error {
 
 	// skip the already read compact length bytes
 	buffer.Next(bytesRead)
+
+	// the name cannot be longer than what is left of the message
+	if nameLength > uint64(buffer.Len()) {
+		return fmt.Errorf("data too short for app name")
+	}
 
 	nameBuffer := make([]byte, nameLength)
 	_, err = io.ReadFull(buffer, nameBuffer)
